@@ -1,6 +1,7 @@
 import Rq.Model.Io
 import Rq.Model.Oracle
 import Rq.Model.Kernels
+import Rq.Model.Plan
 /-! Driver handlers for the codec engine (E3). I/O glue around the model functions. -/
 namespace Rq.DriverE3
 open Rq Rq.Io
@@ -190,3 +191,51 @@ def handle (w : List String) : Option String :=
   | _ => none
 
 end Rq.DriverK
+
+namespace Rq.DriverP
+open Rq Rq.Io
+
+def parseOp (s : String) : Option SymOp :=
+  match s.splitOn ":" with
+  | ["a", d, r] => some (.add (nat d) (nat r))
+  | ["m", d, c] => some (.mul (nat d) (nat c))
+  | ["f", d, r, c] => some (.fma (nat d) (nat r) (nat c))
+  | ["r", l] => some (.reorder (if l == "" then [] else (l.splitOn ".").map nat))
+  | _ => none
+
+def slices (b : Array Nat) (n t : Nat) : List Sym := (List.range n).map fun i => (b.extract (i * t) ((i + 1) * t)).toList
+
+def handle (w : List String) : Option String :=
+  match w with
+  -- replay a plan on D(data): the intermediate symbols and whether they satisfy every constraint
+  | ["planrun", k, t, hd, ops] => some <|
+      match sysParams (nat k), (ops.splitOn ",").mapM parseOp with
+      | some sp, some ol =>
+        let t' := nat t
+        let src := slices (unhexList hd).toArray (nat k) t'
+        match replayPlan sp t' src ol with
+        | none => "err"
+        | some c =>
+          match constraintMatrix sp (List.range sp.kp) with
+          | none => "err"
+          | some (bin, hdp) =>
+            let a : System := { l := sp.l, bin, nLdpc := sp.s, hdpc := hdp }
+            (if checkSolution a c (createD sp t' src) t' then "valid " else "INVALID ") ++ hexList c.toList.flatten
+      | _, _ => "err"
+  -- slab op sequence on explicit symbols:  slab <t> <hex symbols> <ops>  → all logical symbols
+  | ["slab", t, hs, ops] => some <|
+      match (ops.splitOn ",").mapM parseOp with
+      | none => "err"
+      | some ol =>
+        let b := (unhexList hs).toArray
+        let t' := nat t
+        let n := if t' = 0 then 0 else b.size / t'
+        match Slab.run { syms := (slices b n t').toArray, mapping := none } ol with
+        | none => "err"
+        | some s =>
+          match (List.range n).mapM s.get? with
+          | none => "err"
+          | some l => hexList l.flatten
+  | _ => none
+
+end Rq.DriverP
